@@ -231,7 +231,54 @@ def _negzero_single(op, impl, model_line):
     return len(t) >= 2 and t[0] == "-" and set(t[1:]) == {"0"}
 
 
-KNOWN_CLASSES = {"negzero-single-file": _negzero_single}
+def _negzero_marker(op, impl, model_line):
+    return "~negzero=1" in model_line
+
+
+KNOWN_CLASSES = {"negzero-single-file": _negzero_single, "negzero-token": _negzero_marker}
+
+
+def classify_list(op, impl, model_line):
+    f = op.split(" ")
+    n = 0 if f[3] == "~" else f[3].count(",") + 1
+    if n < 2:
+        return None
+    m = _m(model_line)
+    nseq = 0 if m.get("seqs", "-") in ("-", "skip") else m["seqs"].count(",") + 1
+    return f"list:opts{f[1]}:" + ("grouped" if nseq < n else "all-single")
+
+
+PROPS["C05"] = dict(
+    n_quick=5000, n_thorough=60000, classify=classify_list,
+    rule="op list: FindSequencesInList on 1-4 keys (16 dirs incl. pad-char / digit-dot / relative / unclean, 15 basenames incl. "
+         "digit- and dash-ending and hidden, 9 extensions) x 1-8 frames each with uniform or mixed widths 1-6, leading zeros, "
+         "signs, frameless and odd names (newline, '123', '-0'), shuffled, all 4 option subsets x both styles; observed: the "
+         "sequences, their full expansion (exact cover vs the cleaned inputs), result without SingleFiles vs filtered result, "
+         "hidden names, reversed input order; thorough adds all subsets of two 9-name universes; non-trivial = >= 2 paths",
+    assumptions=["sort.Slice is not stable beyond 12 elements: exact grouping is not compared when a directory holds > 12 paths",
+                 "paths containing a backslash are not generated (Windows separator logic not modelled)"],
+)
+PROPS["C06"] = dict(
+    n_quick=1500, n_thorough=20000, classify=lambda op, i, m: "scan:" + ("error" if "err=err" in m.split("\t")[1] else "ok") + ":" + bytes.fromhex(op.split(" ")[3]).decode("latin-1"),
+    timeout=1200,
+    rule="op disk.scan: a generated directory description (regular files, sub-directories, symlinks to files / directories, "
+         "dangling links, hidden entries, odd names, empty) is materialised under a fresh temp directory and scanned with "
+         "FindSequencesOnDisk and ListFiles through 10 spellings of the argument (absolute, trailing slash, relative, ./, '.', "
+         "unclean) plus missing / not-a-directory arguments, all option subsets, both styles; compared with the model's answer "
+         "for the description; non-trivial = any distinct op, class = outcome x spelling",
+    assumptions=["the sandbox runs as root: an unreadable directory is simulated by a missing path and by a regular file",
+                 "Readdir order is arbitrary: exact grouping is not compared when two names differ only in a digit-run length"],
+)
+PROPS["C07"] = dict(
+    n_quick=1500, n_thorough=20000, classify=lambda op, i, m: "find:" + ("found" if "found=1" in m else ("none" if "found=0" in m else "error")) + ":strict" + op.split(" ")[2],
+    timeout=1200,
+    rule="op disk.find: FindSequenceOnDiskPad(pattern, style, StrictPadding?) against a materialised directory holding a target "
+         "sequence plus adversarial siblings (base+ext with nothing between, overlapping prefix/suffix, text / range-like / "
+         "'+5' / overflowing / '-' middles, other widths, negative frames, links, sub-directories); patterns over 14 pad / "
+         "range / concrete-frame forms x 7 basenames x 5 extensions; observed: result, its paths, existence of every path on "
+         "disk, basename/extension; a panic fails the op; non-trivial = any distinct op",
+    assumptions=["as C06"],
+)
 
 NOT_YET = {}
 
@@ -283,6 +330,27 @@ MANIFEST_TEXT = {
              "Go code itself is exercised (every entry point under recover on generated byte strings), not proved.",
         note="Partial: panics inside regexp / text/template / fmt cannot be exhibited by the model; Format with arbitrary templates "
              "is exercised but not modelled. Trusted: Lean kernel, model tie by correspondence."),
+    "C05": dict(
+        text="Theorems (exact cover): for any list of paths with pairwise distinct cleaned forms and tame names the expansion of the "
+             "model's result is a permutation of the selected cleaned inputs — any mix of widths, signs, frameless names, both "
+             "styles; without SingleFiles the result is the same minus the non-numbered entries; hidden names are ignored "
+             "without the option; the listing never fails. The order-insensitivity clause is checked by correspondence only.",
+        note="Partial in one clause (order-insensitivity for uniform widths: tie only). Known finding: negative-zero frame tokens "
+             "(theorem guard TameName). Trusted: Lean kernel; regex recogniser for optionalFramePattern and sort.Slice (stable "
+             "insertion sort for n <= 12) as models, tied by correspondence."),
+    "C06": dict(
+        text="Theorems: scanning a directory value equals listing (dirPrefix arg, name) for its regular files and links to "
+             "non-directories, with the same options; unreadable directory or dangling link is an error; ListFiles = scan with "
+             "SingleFiles; every result carries the directory prefix. The OS side (Readdir, Stat, symlinks) is a parameter of the "
+             "model and is exercised on real temp directories.",
+        note="Partial: kernel directory / symlink / permission semantics cannot be exhibited by the model (root sandbox: EACCES "
+             "simulated). Trusted: Lean kernel, correspondence on materialised directories."),
+    "C07": dict(
+        text="Theorems: unparsable pattern -> nil result; missing directory -> error; a result has the pattern's basename, "
+             "extension, the requested style and (StrictPadding) the pattern's width; the glob only buckets names of the form "
+             "basename+frame+extension under the pattern's key, so no sibling contributes a phantom frame; slice bounds hold.",
+        note="Partial: as C06 for the OS side; 'every frame path exists' is checked on real directories (model: exact cover of the "
+             "bucket). Known finding: negative-zero frame tokens. Trusted: Lean kernel, correspondence."),
     "C08": dict(
         text="Theorems: for every accepted range text with >= 1 frame the model's Normalize yields sortedSet of the frames and "
              "Invert the complement within [min,max], both well-formed; their printed strings re-parse to those lists; "
